@@ -295,7 +295,9 @@ def run_program(src):
     from plasTeX.TeX import TeX
     t = TeX()
     t.input(r'\documentclass{article}\begin{document}%s\end{document}' % src)
-    d = t.parse()
+    from util import time_limit
+    with time_limit(10):
+        d = t.parse()
     text = d.textContent
     got = re.findall(r'\(=?[a-zA-Z0-9@]+=?\)', text.replace(' ', ''))
     return got, d.context.depth, len(d.context.contexts)
